@@ -347,6 +347,7 @@ def thorough_extras(prop, mine, repo, seed, results):
 def do_replay(prop, path, repo, seed):
     doc = json.load(open(path))
     if doc.get('bounded'):
+        os.environ['VERIF_SEED'] = str(doc.get('seed', 0))   # the enumeration of some checks is offset by the seed
         r = vb.run_bounded(doc['bounded'], doc.get('tier', 'quick'), repo, ['--one', str(doc.get('index'))])
         print('replay of bounded check %s input #%s against the current tree: %s' % (doc['bounded'], doc.get('index'), json.dumps(dict(status=r['status'], signatures=r.get('signatures')))))
         for f in r.get('failures', [])[:2]:
